@@ -388,17 +388,20 @@ func failConds() (out string) {
 				return m, rw, err
 			}
 			called, pv := probeSession(conn, recv, xmpp.Secure, f)
-			if pv != "" || called == 0 || nerr == nil {
+			if pv != "" || called == 0 {
 				return "none"
 			}
-			isSasl := strings.HasPrefix(nc.ErrClass(nerr), "sasl:")
-			rows = append(rows, fmt.Sprintf("(%q, %q, %s, %s, %q)", role, c, leanBool(mask&xmpp.Authn != 0), leanBool(isSasl), nerr.Error()))
+			isSasl, text := false, "<nil>"
+			if nerr != nil {
+				isSasl, text = strings.HasPrefix(nc.ErrClass(nerr), "sasl:"), nerr.Error()
+			}
+			rows = append(rows, fmt.Sprintf("(%q, %q, %s, %s, %q)", role, c, leanBool(mask&xmpp.Authn != 0), leanBool(isSasl), text))
 			if probeSink != nil {
 				cf := c
 				if cf == "" {
 					cf = "-"
 				}
-				probeSink(fmt.Sprintf("failc %s %s", role, cf), fmt.Sprintf("%s %s %s", common.B(mask&xmpp.Authn != 0), common.B(isSasl), common.HexS(nerr.Error())))
+				probeSink(fmt.Sprintf("failc %s %s", role, cf), fmt.Sprintf("%s %s %s", common.B(mask&xmpp.Authn != 0), common.B(isSasl), common.HexS(text)))
 			}
 		}
 	}
